@@ -8,6 +8,7 @@ import (
 	"os/exec"
 	"path/filepath"
 	"runtime"
+	"sort"
 	"strconv"
 	"strings"
 	"sync"
@@ -29,10 +30,10 @@ import (
 // that in one address space serialise on the kernel's mmap lock.
 
 type Viol struct {
-	Sig  string `json:"sig"`
-	Desc string `json:"desc"`
-	Case any    `json:"case"`
-	N    int64  `json:"n"`
+	Sig  string          `json:"sig"`
+	Desc string          `json:"desc"`
+	Case json.RawMessage `json:"case"`
+	N    int64           `json:"n"`
 }
 
 type Collector struct {
@@ -100,14 +101,63 @@ func (c *Collector) Anomaly(v any) {
 		c.Anoms = append(c.Anoms, b)
 	}
 }
+
+// Violate counts a confirmed deviation; per signature the smallest case (shortest JSON, then lexicographic) is kept,
+// so the reported example does not depend on which shard ran what.
 func (c *Collector) Violate(sig, desc string, cs any) {
+	b, _ := json.Marshal(cs)
 	if v, ok := c.bySig[sig]; ok {
 		v.N++
+		if lessCase(b, v.Case) {
+			v.Desc, v.Case = desc, b
+		}
 		return
 	}
-	v := &Viol{Sig: sig, Desc: desc, Case: cs, N: 1}
+	v := &Viol{Sig: sig, Desc: desc, Case: b, N: 1}
 	c.bySig[sig] = v
 	c.Viols = append(c.Viols, v)
+}
+
+func lessCase(a, b json.RawMessage) bool {
+	if len(a) != len(b) {
+		return len(a) < len(b)
+	}
+	return string(a) < string(b)
+}
+
+// MergeAll merges the shard collectors into the report (violations: one minimal example per signature, all counted).
+func MergeAll(cs []*Collector, r *core.Report) {
+	best := map[string]*Viol{}
+	var order []string
+	for _, c := range cs {
+		for _, v := range c.Viols {
+			if b, ok := best[v.Sig]; ok {
+				b.N += v.N
+				if lessCase(v.Case, b.Case) {
+					b.Desc, b.Case = v.Desc, v.Case
+				}
+			} else {
+				cp := *v
+				best[v.Sig] = &cp
+				order = append(order, v.Sig)
+			}
+		}
+		vs := c.Viols
+		c.Viols = nil
+		c.MergeInto(r)
+		c.Viols = vs
+	}
+	sort.Strings(order)
+	for _, sig := range order {
+		v := best[sig]
+		n := v.N
+		if n > 5000 {
+			n = 5000
+		}
+		for i := int64(0); i < n; i++ {
+			r.Violate(v.Sig, v.Desc, v.Case)
+		}
+	}
 }
 func (c *Collector) Violations() int { return len(c.Viols) }
 func (c *Collector) Expired() bool {
